@@ -79,3 +79,36 @@ Example C14_nonvacuous_build :
   build [4101; 8191; 8192] [3; 10; 1]
   = Ok [0;16;0;0; 12;0;0;0; 5;48; 255;175;  0;32;0;0; 12;0;0;0; 0;16; 0;0].
 Proof. vm_compute. reflexivity. Qed.
+
+(* ---- leaf functions regenerated from the source on every run (tools/gen_leaf.py -> gen/Leaf.v): agreement with the hand-written model ---- *)
+(* src/base_relocs.rs Block::rva_of / type_of / encode_type_offset and the block bounds of build, regenerated from the
+   source on every run, are the functions of Model/Relocs.v (arguments in the ranges of their Rust types) *)
+From PV.Model Require Relocs.
+From PV.gen Require Leaf.
+From PV.Proofs Require LeafRelocs.
+Theorem C14_leaf_rva_of : forall va w, Leaf.L_base_relocs_Block_rva_of_dom va w = true ->
+  Leaf.L_base_relocs_Block_rva_of_ok va w = true /\ Leaf.L_base_relocs_Block_rva_of va w = Relocs.rva_of va w.
+Proof. exact LeafRelocs.rva_of_agrees. Qed.
+Print Assumptions C14_leaf_rva_of.
+Theorem C14_leaf_type_of : forall w, Leaf.L_base_relocs_Block_type_of_dom w = true ->
+  Leaf.L_base_relocs_Block_type_of_ok w = true /\ Leaf.L_base_relocs_Block_type_of w = Relocs.type_of w.
+Proof. exact LeafRelocs.type_of_agrees. Qed.
+Print Assumptions C14_leaf_type_of.
+Theorem C14_leaf_encode_type_offset : forall base rva ty, Leaf.L_base_relocs_encode_type_offset_dom base rva ty = true ->
+  Relocs.encode_type_offset base rva ty =
+    if Leaf.L_base_relocs_encode_type_offset_ok base rva ty then Ok (Leaf.L_base_relocs_encode_type_offset base rva ty)
+    else Fault POverflow.
+Proof. exact LeafRelocs.encode_type_offset_agrees. Qed.
+Print Assumptions C14_leaf_encode_type_offset.
+Theorem C14_leaf_build_step : forall cnt fuel r0 rs types, Leaf.L_base_relocs_build__start_dom r0 = true ->
+  Relocs.build_gen cnt (S fuel) (r0 :: rs) types =
+    (let start := Leaf.L_base_relocs_build__start r0 in
+     end_ <- (if Leaf.L_base_relocs_build__end_ok r0 then Ok (Leaf.L_base_relocs_build__end r0) else Fault POverflow) ;;
+     let n := cnt start end_ (r0 :: rs) in
+     let size := Machine.align_to W64 4 (8 + 2 * N.of_nat n) in
+     ws <- Relocs.encode_all start (firstn n (r0 :: rs)) (firstn n types) ;;
+     let pad := if N.odd (N.of_nat n) then [0; 0] else [] in
+     rest <- Relocs.build_gen cnt fuel (skipn n (r0 :: rs)) (skipn n types) ;;
+     Ok (le32 start ++ le32 (size mod W32) ++ flat_map le16 ws ++ pad ++ rest)).
+Proof. exact LeafRelocs.build_gen_step. Qed.
+Print Assumptions C14_leaf_build_step.
